@@ -42,6 +42,7 @@ def history(writer, blocked, nrec, fins, maxlen, readable=True, optimize=0):
             w = m.IpmWriter(f, blocked=blocked)
             items = [{'MTI': '1144', 'DE2': v} for v in vals]
         w.__enter__()
+        bound_close = w.close               # a callable taken before the first finalisation (an ExitStack callback, `finish = writer.close`)
         for it in items:
             w.write(it)
         snap = None
@@ -49,6 +50,13 @@ def history(writer, blocked, nrec, fins, maxlen, readable=True, optimize=0):
             core.FUEL.set(nblocks + 4)
             if fin == 'close':
                 w.close()
+            elif fin == 'bound-close':
+                bound_close()
+            elif fin.startswith('exit-'):
+                # the with block is left by an exception: the file is finalised all the same, the exception is not swallowed
+                exc = {'exit-error': ValueError, 'exit-generator-exit': GeneratorExit, 'exit-keyboard-interrupt': KeyboardInterrupt}[fin]
+                swallowed = w.__exit__(exc, exc('leaving the with block'), None)
+                require(not swallowed, '__exit__ swallows the exception that ended the with block', key='C11/exit-swallows', replay=rp)
             elif fin == 'with':
                 with w:             # the writer goes through a (further) with block
                     pass
@@ -114,6 +122,15 @@ def obligations(tier):
                 obs.append(Ob('%s/%s/1rec/%s/python-O' % (writer, 'blocked' if blocked else 'unblocked', '+'.join(fins)),
                               history(writer, blocked, 1, fins, 2500 if writer == 'vbs' else 99, optimize=1), 120,
                               'the same under python -O (module compiled with optimize=1: assert statements removed), replayed in a python -O subprocess', _funcs))
+    for writer in ('vbs', 'ipm'):
+        for blocked in (False, True):
+            for fins in (('exit-error',), ('exit-generator-exit',), ('exit-keyboard-interrupt', 'close'), ('bound-close', 'close'), ('close', 'bound-close'),
+                         ('bound-close', 'bound-close'), ('exit', 'bound-close')):
+                if q and writer == 'ipm' and fins not in (('exit-generator-exit',), ('close', 'bound-close')):
+                    continue
+                obs.append(Ob('%s/%s/1rec/%s' % (writer, 'blocked' if blocked else 'unblocked', '+'.join(fins)),
+                              history(writer, blocked, 1, fins, 2500 if writer == 'vbs' else 99), 120,
+                              'finalisation through a with block that is left by an exception / through a close callable taken before the first finalisation', _funcs))
     for blocked in (False, True):
         for fins in (('close', 'with'), ('exit', 'with'), ('with', 'with'), ('close', 'with', 'close')):
             obs.append(Ob('vbs/%s/1rec/%s' % ('blocked' if blocked else 'unblocked', '+'.join(fins)), history('vbs', blocked, 1, fins, 2500), 120,
